@@ -1,0 +1,17 @@
+//go:build verif
+
+package types
+
+// Contracts for the verification machinery in /verif (comment-only file; no code).
+
+// verif:func (ClientState).CheckMsg
+//@ ensures [signer-is-tss] result == nil ==> cs.TssAddress == callres("String", 0)
+//@ callsite String [first-signer] ncalls("GetSigners") == 1
+
+// verif:func (ClientState).VerifyPacketCommitment
+//@ ensures [tss-signer] result == nil ==> string(proof) == cs.TssAddress
+//@ ensures [reject]     string(proof) != cs.TssAddress ==> result != nil
+
+// verif:func (ClientState).VerifyPacketAcknowledgement
+//@ ensures [tss-signer] result == nil ==> string(proof) == m.TssAddress
+//@ ensures [reject]     string(proof) != m.TssAddress ==> result != nil
